@@ -228,10 +228,9 @@ func (m *moduleEngine) putLocalMemory() {
 	offset := m.parent.offsets.LocalMemoryBegin
 
 	s := uint64(len(mem.Buffer))
-	var b uint64
-	if len(mem.Buffer) > 0 {
-		b = uint64(uintptr(unsafe.Pointer(&mem.Buffer[0])))
-	}
+	// Take the base even when the buffer is empty: the base of a shared memory never moves, so the
+	// compiled code does not reload it after growing a shared memory that started with zero pages.
+	b := uint64(uintptr(unsafe.Pointer(unsafe.SliceData(mem.Buffer))))
 	binary.LittleEndian.PutUint64(m.opaque[offset:], b)
 	binary.LittleEndian.PutUint64(m.opaque[offset+8:], s)
 }
